@@ -3,6 +3,7 @@
    produced ZwVerif/Generated/*.lean first. -/
 import ZwVerif.Props.C01
 import ZwVerif.Props.C01Merge
+import ZwVerif.Props.C01Or
 import ZwVerif.Props.C02
 import ZwVerif.Props.C03
 import ZwVerif.Props.C04
